@@ -99,6 +99,7 @@ type Scenario struct {
 	Castor    string   `json:"castor,omitempty"`
 	Txs       []TxS    `json:"txs"`
 	Situation string   `json:"situation,omitempty"`
+	SiteAdd   []Esc       `json:"siteAdd,omitempty"` // site-level scenario: one RefundManager.Add call with these (height, id, value) entries, then CheckAndMove
 	History   []HistPoint `json:"history,omitempty"` // fresh-process comparison: what the process executed before this block
 	CastCut   int      `json:"castCut,omitempty"` // casting-mode scenario: the deadline strikes when the loop reaches its CastCut-th executed transaction
 	Config    string   `json:"config,omitempty"` // "" = dev table with the flag vector; "mainnet" / "robin" = the real schedule at this height
@@ -2566,6 +2567,58 @@ func historyFamily(r *hx.Rng, count int, report func(sc *Scenario, res map[strin
 	return evals
 }
 
+
+// siteFold: the map-range sites called directly, N times on fresh AccountDBs opened at the same
+// root: one RefundManager.Add with a multi-height map (zero values, repeated ids, several heights —
+// what pre-Proposal012 refunds and rewards produce) followed by CheckAndMove of every height.
+func siteFold(sc *Scenario, n int) map[string]int {
+	applyFlags(sc, sc.Height-1, false)
+	root, t := buildParent(sc)
+	res := map[string]int{}
+	for i := 0; i < n; i++ {
+		fp := hx.Guard(func() string {
+			st, err := account.NewAccountDB(root, t)
+			if err != nil {
+				panic(err)
+			}
+			data := map[uint64]types.RefundInfoList{}
+			hs := map[uint64]bool{}
+			for _, e := range sc.SiteAdd {
+				l := data[e.H]
+				l.AddRefundInfo(unhex(e.Id), bigOf(e.V))
+				data[e.H] = l
+				hs[e.H] = true
+			}
+			service.RefundManagerImpl.Add(data, st)
+			mid := st.IntermediateRoot(true)
+			for h := range hs {
+				service.RefundManagerImpl.CheckAndMove(h, st)
+			}
+			return "root=" + mid.Hex() + " after-move=" + st.IntermediateRoot(true).Hex() + " ev= rc="
+		})
+		res[fp]++
+	}
+	return res
+}
+
+func siteFamily(r *hx.Rng, count, n int, report func(sc *Scenario, res map[string]int)) int {
+	for k := 0; k < count; k++ {
+		sc := &Scenario{Name: fmt.Sprintf("site-add-%d", k), Height: 100, Flags: "111111", P026: true,
+			Accounts: []Acct{{poolAddrs[0], e18(5).String(), 0}}}
+		nh := 2 + r.Intn(3)
+		for h := 0; h < nh; h++ {
+			for e := r.Pick(1, 1, 2, 3); e > 0; e-- {
+				sc.SiteAdd = append(sc.SiteAdd, Esc{uint64(100 + 50*h), poolAddrs[r.Intn(len(poolAddrs))], e18(int64(r.Pick(0, 0, 1, 2, 3))).String()})
+			}
+		}
+		if r.Bool() { // something already booked at one of the heights
+			sc.Escrow = []Esc{{100, poolAddrs[r.Intn(len(poolAddrs))], e18(1).String()}}
+		}
+		report(sc, siteFold(sc, n))
+	}
+	return count * n
+}
+
 // concurrentBatch (evidence, not proof): K different blocks are executed by K goroutines at the same
 // time — as a node does when it casts in a goroutine while verifying incoming blocks — and every
 // result must equal the one the same block gives when executed alone.
@@ -2689,6 +2742,7 @@ func search(a map[string]string, r *hx.Rng) {
 		distinct[sc.Name] = true
 		report(sc, res)
 	}
+	evals += siteFamily(r.Fork(), 24, n, report)
 	evals += historyFamily(r.Fork(), hx.ArgInt(a, "hist", 9), report)
 	for _, fam := range extraFamilies {
 		evals += fam(r.Fork(), report)
@@ -2849,7 +2903,9 @@ func main() {
 		}
 		poisonRng = r.Fork() // the replay, too, poisons the process half-way through
 		var res map[string]int
-		if len(sc.History) > 0 {
+		if len(sc.SiteAdd) > 0 {
+			res = siteFold(&sc, hx.ArgInt(a, "n", 64))
+		} else if len(sc.History) > 0 {
 			res = compareWithFreshProcess(&sc)
 		} else if sc.CastCut > 0 && replayHooked != nil {
 			res = replayHooked(&sc)
